@@ -226,6 +226,7 @@ func runC20(c *Ctx) {
 
 	// ---- R5 call sites
 	c20CallSites(c, p)
+	c20AddrTaint(c, p, "R6")
 }
 
 // scrubbedOnly returns "" if string value v is built from allowed parts only.
